@@ -26,7 +26,7 @@
    inside Coq via ssa_tree), and that simplify()/subgraphs() leave a precondition network
    untouched (exercised end to end by the oracle). *)
 From Coq Require Import ZArith NArith List Lia Permutation.
-From Ctg Require Import Base Net Optimal OptimalFacts.
+From Ctg Require Import Base Net Optimal OptimalFacts OptimalProc OptimalProcFacts.
 Import ListNotations.
 Open Scope nat_scope.
 
@@ -246,6 +246,100 @@ Theorem C09_full_treeb_sound : forall n t, full_treeb n t = true -> full_tree n 
 Proof. exact full_treeb_sound. Qed.
 Print Assumptions C09_full_treeb_sound.
 
+(* ================================================================== *)
+(* ROUND 3: the public entry point on a network satisfying the property's precondition.
+   pre_b (Model/OptimalProc.v, executable) = wf_procb (no repeated index within a tensor, no index
+   confined to one tensor and absent from the output, dims >= 0) && nosimp_b (no scalars, no two
+   tensors with the same index set, no index shared by all tensors) && connected_b (the search of
+   subgraphs() from tensor 0 reaches every tensor), all on the processor state built by __init__.
+   optimize_optimal_full = __init__ ; simplify() (the C05 builder's model Processor.cp_simplify, for
+   every hadamard iteration-order oracle `orders`) ; subgraphs() ; the DP ; ssa replay. *)
+
+(* simplify() changes nothing *)
+Theorem C09_simplify_is_noop : forall nodes app szs,
+  (forall i, i < length nodes -> nth i nodes [] = legs_of nodes app (bit i)) ->
+  nosimp_b (mkProc nodes app szs) = true ->
+  forall orders, cp_simplify orders (cp_of (mkProc nodes app szs)) = cp_of (mkProc nodes app szs).
+Proof. exact simplify_noop. Qed.
+Print Assumptions C09_simplify_is_noop.
+
+(* the executable connectivity test means: every cut is crossed by an index *)
+Theorem C09_connected_b_is_connected : forall nodes app szs,
+  (forall i, i < length nodes -> nth i nodes [] = legs_of nodes app (bit i)) ->
+  connected_b (mkProc nodes app szs) = true -> connected_prop nodes (length app).
+Proof. exact connected_b_prop. Qed.
+Print Assumptions C09_connected_b_is_connected.
+
+(* subgraphs() returns the single full component (whatever tensor the search starts from:
+   bfs_reaches_all is proved for every start) *)
+Theorem C09_subgraphs_is_single_component : forall nodes app szs,
+  (forall i, i < length nodes -> nth i nodes [] = legs_of nodes app (bit i)) ->
+  nosimp_b (mkProc nodes app szs) = true ->
+  connected_prop nodes (length app) -> 1 <= length nodes ->
+  cp_subgraphs (cp_of (mkProc nodes app szs)) = [seq 0 (length nodes)].
+Proof. exact subgraphs_single. Qed.
+Print Assumptions C09_subgraphs_is_single_component.
+
+Theorem C09_search_reaches_all_from_any_start : forall nodes app szs,
+  (forall i, i < length nodes -> nth i nodes [] = legs_of nodes app (bit i)) ->
+  forall i0, connected_prop nodes (length app) -> i0 < length nodes ->
+  forall k, k < length nodes ->
+  In k (bfs_loop (neighbors (cp_of (mkProc nodes app szs))) (length nodes) [i0] [i0]).
+Proof. exact bfs_reaches_all. Qed.
+Print Assumptions C09_search_reaches_all_from_any_start.
+
+(* so the public entry point IS one run of the dynamic programme proved optimal above *)
+Theorem C09_entry_point_is_one_dp : forall orders net o so fuel cap, pre_b net = true ->
+  optimize_optimal_full orders net o so fuel cap =
+  match optimize_optimal net o so fuel cap with
+  | Some (sc, pairs) => Some (sc, map step_of pairs)
+  | None => None
+  end.
+Proof. exact full_is_one_dp. Qed.
+Print Assumptions C09_entry_point_is_one_dp.
+
+(* replaying the stored bit path yields an ssa path OF the stored tree: the tree a user builds from
+   the returned path (ssa_tree) is exactly the optimal tree *)
+Theorem C09_replay_is_path_of_tree : forall n t S, vtree n t S -> nleaves t = n ->
+  ssa_tree n (replay_bitpath (bitpath t) (combine (map bit (seq 0 n)) (seq 0 n)) n) = t.
+Proof. exact replay_is_path_of_tree. Qed.
+Print Assumptions C09_replay_is_path_of_tree.
+
+(* a connected network has an outer-product-free tree over all its tensors *)
+Theorem C09_connected_has_outer_free_tree : forall nodes app,
+  (forall j, j < length app -> cnt_all nodes j <= appn app j) ->
+  connected_prop nodes (length app) -> 1 <= length nodes ->
+  exists t, full_tree (length nodes) t /\ outer_free nodes app t = true.
+Proof. exact connected_has_outer_free_tree. Qed.
+Print Assumptions C09_connected_has_outer_free_tree.
+
+(* THE PROPERTY.  For every network satisfying the precondition, each of the six objectives (any
+   factor >= 0), both search modes, every initial cost_cap and fuel: if the optimal finder returns
+   (score, path) then path is an ssa path of a tree t over all tensors, t is admissible, its objective
+   value is `score`, and no admissible tree over all tensors has a smaller objective value -- all
+   binary trees when search_outer, all outer-product-free trees otherwise. *)
+Theorem C09_optimal_path_is_optimal : forall orders net o so fuel cap sc path,
+  pre_b net = true -> obj_ok o ->
+  optimize_optimal_full orders net o so fuel cap = Some (sc, path) ->
+  let P := proc_init net in
+  let n := length (p_nodes P) in
+  exists pairs, path = map step_of pairs /\
+    let t := ssa_tree n pairs in
+    full_tree n t /\ admissible (p_nodes P) (p_app P) so t = true /\
+    tscore (p_nodes P) (p_app P) (p_sizes P) o t = sc /\
+    (forall t', full_tree n t' -> admissible (p_nodes P) (p_app P) so t' = true ->
+                (sc <= tscore (p_nodes P) (p_app P) (p_sizes P) o t')%Z).
+Proof. exact optimal_path_is_optimal. Qed.
+Print Assumptions C09_optimal_path_is_optimal.
+
+(* ... and it does return, for both search modes, with no per-case hypothesis: there is a bound B (the
+   score of an outer-product-free tree) such that fuel f+1 suffices whenever cap * 2^f >= B *)
+Theorem C09_optimal_finder_returns : forall orders net o so, pre_b net = true -> obj_ok o ->
+  exists B, forall f cap, (B <= cap * 2 ^ Z.of_nat f)%Z ->
+  exists sc path, optimize_optimal_full orders net o so (S f) cap = Some (sc, path).
+Proof. exact optimal_finder_returns. Qed.
+Print Assumptions C09_optimal_finder_returns.
+
 (* ---- the traced loop used by the correspondence computes the same tables ---- *)
 Theorem C09_traced_loop_is_the_loop : forall app szs obj so nt fuel cap st,
   option_map (fun r => (fst (fst r), snd r)) (dp_loop_tr app szs obj so nt fuel cap st)
@@ -280,3 +374,10 @@ Example C09_ex_terminates :
   tscore (p_nodes ex_p) (p_app ex_p) (p_sizes ex_p) OFlops (comb 4) = 728%Z /\
   (728 <= 1 * 2 ^ Z.of_nat 10)%Z.
 Proof. split; [vm_compute; reflexivity | cbn; lia]. Qed.
+
+Example C09_ex_pre_b :
+  pre_b ex_net = true /\
+  optimize_optimal_full [] ex_net OFlops false 100 1%Z = Some (600%Z, [[0; 1]; [4; 5]; [2; 6]; [3; 7]]) /\
+  pre_b (mkNet [[0; 1]; [1; 0]; [2; 3]; [3; 2; 4]] [4] [(0, 2%Z); (1, 2%Z); (2, 2%Z); (3, 2%Z); (4, 2%Z)]) = false.
+Proof. vm_compute. repeat split; reflexivity. Qed.
+
